@@ -17,7 +17,7 @@
 (*   dtype  "float" | "int" | "str" | "none"  (strings / None entries)     *)
 (*   bad    "none" | "nan_first" | "nan_last" | "inf_first" | "inf_last"   *)
 (*          | "neginf_mid"     a non-finite entry and where                *)
-(*   lab    "na" | "ok" | "zero" | "two" | "half"   pair-label alphabet    *)
+(*   lab    "na" | "ok" | "zero" | "two" | "half" | "str"  pair-label alphabet (str: a non-numeric entry) *)
 (*   lenrel "na" | "eq" | "shorter" | "longer"  len(labels) vs len(data)   *)
 (*   ncomp  "na" | "none" | "one" | "d" | "zero" | "dplus1" | "minus1" | "minusd" (= -n_features) *)
 (*   prep   whether the estimator has a preprocessor                       *)
@@ -98,7 +98,7 @@ Dom(f) == CASE f = "ndim" -> 0..4
             [] f = "drel" -> {"fit", "less", "more", "one"}
             [] f = "dtype" -> {"float", "int", "str", "none"}
             [] f = "bad" -> {"none", "nan_first", "nan_last", "inf_first", "inf_last", "neginf_mid"}
-            [] f = "lab" -> {"na", "ok", "zero", "two", "half"}
+            [] f = "lab" -> {"na", "ok", "zero", "two", "half", "str"}
             [] f = "lenrel" -> {"na", "eq", "shorter", "longer"}
             [] f = "ncomp" -> {"na", "none", "one", "d", "zero", "dplus1", "minus1", "minusd"}
 
